@@ -151,17 +151,27 @@ class CashAccount:
         return tot
 
     def would_reject(self, s, side, kind, qty, price):
-        """the stated rule; returns (reject?, needed, have) as floats"""
+        """the stated rule; returns (reject?, needed, have, where) - needed/have as floats for reports, `where` is
+        'exact' (needed equals have), 'near' (closer than 1e-9 relative, not equal) or 'far'"""
         self.sym(s)
         q = abs(float(qty))
+
+        def where(need, have):
+            if need == have:
+                return 'exact'
+            return 'near' if abs(need - have) <= D(1e-9) * max(D(1), abs(need)) else 'far'
         if side == 'buy':
             need = q * float(price)
-            return self.sub(self.quote, need) < 0, need, self.quote
-        if kind == 'MARKET':
-            need = self.add(q, self.sums.get((s, 'LIMIT'), 0.0))
-        else:
-            need = self.add(q, self.sums.get((s, kind), 0.0))
-        return need > self.base[s], need, self.base[s]
+            return self.sub(self.quote, need) < 0, need, self.quote, where(D(need), D(self.quote))
+        # "a sell plus the already resting sells of its kind (the resting limit sells for a market sell)": the
+        # resting sells are the orders that rest NOW - their exact decimal total, not a running float total that has
+        # been rounded to a double after every earlier submission, cancellation and fill
+        k = 'LIMIT' if kind == 'MARKET' else kind
+        need = D(q)
+        for (s2, side2, kind2, q2, p2) in self.rest.values():
+            if s2 == s and side2 == 'sell' and kind2 == k:
+                need += D(q2)
+        return need > D(self.base[s]), float(need), self.base[s], where(need, D(self.base[s]))
 
     def submit(self, oid, s, side, kind, qty, price):
         self.sym(s)
